@@ -66,18 +66,25 @@ class Rec:
         self.ev.append(e)
 
 
+class Runaway(Exception):
+    """the writer made more send() calls in one operation than there are plan elements and queued packets"""
+
+
 class PlanSock(impl.FakeSock):
     def __init__(self, rec):
         super().__init__()
         self.rec = rec
         self.plan = collections.deque()
         self.calls = 0
+        self.budget = 1000
         self.nontrivial = False
 
     def send(self, data):
         if self.closed:
             raise OSError(9, "closed")
         self.calls += 1
+        if self.calls > self.budget:
+            raise Runaway()
         k = self.plan.popleft() if self.plan else len(data)
         if k == -1:
             self.nontrivial = True
@@ -219,6 +226,7 @@ class Run:
     def _create(self):
         s = PlanSock(self.rec)
         s.plan = collections.deque(self.pending_plan)
+        s.budget = len(s.plan) + 500
         self.socks.append(s)
         self.rec.add("newsock", s)
         if self.ws:
@@ -267,6 +275,9 @@ class Run:
             s.plan = collections.deque(plan)
         self.cb_infos = []
         rc, raised = None, False
+        if s is not None:
+            # an op can make at most one send per plan element plus one per queued packet (an exhausted plan accepts all)
+            s.budget = s.calls + len(s.plan) + 500 + 4 * len(c._out_packet)
         try:
             if k == "connect":
                 rc = c.connect("h", 1883, 60)
@@ -309,6 +320,8 @@ class Run:
                 raise ValueError(k)
         except CbRaise:
             raised = True
+        except Runaway:
+            self.runaway = True
         finally:
             s = self.raw()
             if s is not None and plan is not None and not op.get("keep"):
@@ -316,6 +329,7 @@ class Run:
         return rc, raised
 
     infos = None
+    runaway = False
 
 
 def py_deframe(raw):
@@ -422,6 +436,9 @@ def execute(case):
             calls0 = s0.calls if s0 is not None else 0
             used0 = proxy.used
             rc, raised = r.do(op)
+            if r.runaway:
+                bad("no-termination", "the writer kept calling send() beyond every plan element and queued packet (loop does not terminate)", i)
+                break
             evs = r.rec.ev[mark:]
             # --- connection boundary
             if any(e[0] == "clear" for e in evs):
